@@ -61,6 +61,15 @@ CHECKS["C11"] = dict(
          "RuneSet: TLC enumerates every Add/Delete history up to length D over boundary runes; the harness replays it and RuneSetV steps the mathematical set alongside, checking Contains/Len/serialization round trip/includes after every operation.",
     note="Trusts the harness's run-length compression (funcSegments/setRanges), language.LookupScript as fact (C20), TLC. Quick tier samples 120 corpus files by seed; thorough takes all 738.")
 
+CHECKS["C20"] = dict(
+    engine="ucd",
+    technique="TLA+ law modules (Direction.tla as an action system model-checked with action properties; Tables.tla with the bisection-equals-linear-scan law model-checked; LangTag.tla) evaluated by TLC on a complete dump of the library's tables and of its lookup results over all code points",
+    category="model_checking", design_ref="DESIGN.md §5 C20",
+    text="The laws (each setter changes only its component; tables sorted and pairwise disjoint = exactly one value; the looked-up value changes exactly where the tables change = agreement with a linear scan; mirroring involution; "
+         "Decompose/Compose mutual inverses outside the exclusions; tag canonicalisation idempotent and equal to its specification; identifiers round-trip; primary fallback) are TLA+ predicates. "
+         "The input is finite and complete (all 0x110000 code points, all table entries, all 256 direction values), so one pass is exhaustive.",
+    note="Trusts the harness's flattening of unicode.RangeTable and run-length compression, x/text norm for the exclusion facts, TLC.")
+
 NOT_YET = {}
 NA = {
  "C05": "defined as agreement with the reference C HarfBuzz; no reference shaper (uharfbuzz/hb-shape) exists in this sealed sandbox and re-specifying HarfBuzz in TLA+ would make the spec the reference (DESIGN §6)",
